@@ -119,6 +119,19 @@ func (c *patchConn) Write(p []byte) (int, error) {
 func sStr(s string) sx.S   { return sx.L(sx.Sym("s"), sx.Str(s)) }
 func sBytes(b []byte) sx.S { return sx.L(sx.Sym("b"), sx.B(b)) }
 func sBuf(n int) sx.S      { return sx.L(sx.Sym("buf"), sx.I(int64(n))) }
+
+// chunks: long byte strings are written into CASES as several atoms of at most
+// 256 bytes (the Gallina parser reverses each atom with the standard library's
+// quadratic rev); the model concatenates them.  Observations use one atom.
+func chunks(head string, b []byte) sx.S {
+	out := []sx.S{sx.Sym(head)}
+	for len(b) > 256 {
+		out = append(out, sx.B(b[:256]))
+		b = b[256:]
+	}
+	out = append(out, sx.B(b))
+	return sx.List(out)
+}
 func sStrs(l []string) sx.S {
 	out := []sx.S{sx.Sym("ss")}
 	for _, s := range l {
@@ -232,7 +245,7 @@ func (c *call) argsSexp() sx.S {
 	case "Read":
 		return sx.L(f(c.fid), sBuf(c.plen), sx.I(c.off))
 	case "Write":
-		return sx.L(f(c.fid), sBytes(c.data), sx.I(c.off))
+		return sx.L(f(c.fid), chunks("b", c.data), sx.I(c.off))
 	case "Open":
 		return sx.L(f(c.fid), sx.U(uint64(c.mode)))
 	case "Create":
@@ -249,7 +262,7 @@ func (c *call) scriptSexp() sx.S {
 	case "rerror", "prerror", "plain":
 		return sx.L(sx.Sym(s.kind), sx.Str(s.text))
 	case "read":
-		return sx.L(sx.Sym("read"), sx.B(s.data))
+		return chunks("read", s.data)
 	}
 	switch c.method {
 	case "Auth", "Attach":
@@ -1237,7 +1250,7 @@ func genReply(r *prng.R) (p9p.Message, sx.S) {
 		return p9p.MessageRcreate{Qid: q, IOUnit: u}, m(p9p.Rcreate, sQid(q), wInt(4, uint64(u)))
 	case 6:
 		d := r.Bytes(r.Pick(0, 1, 5, 40, 300))
-		return p9p.MessageRread{Data: d}, m(p9p.Rread, sBytes(d))
+		return p9p.MessageRread{Data: d}, m(p9p.Rread, chunks("b", d))
 	case 7:
 		n := uint32(r.PickU64(0, 1, 5, 40, 300, ^uint64(0), r.U64()))
 		return p9p.MessageRwrite{Count: n}, m(p9p.Rwrite, wInt(4, uint64(n)))
